@@ -139,7 +139,8 @@ def observe (s : App) : List String :=
     match s.queryPower t with
     | some p => s!" {name}:{p}"
     | none => s!" {name}:err"))
-  vals ++ [tot, idx, ubq, pend, updc, pool, par] ++ sigs ++ ["AUTH 1", qry]
+  let pqry := "PQRY" ++ String.join (s.queryPending.map (fun p => s!" {p.op}:{p.key}:{p.tokens}:{p.minSelf}:" ++ ",".intercalate (p.info.map toString)))
+  vals ++ [tot, idx, ubq, pend, updc, pool, par] ++ sigs ++ ["AUTH 1", qry, pqry]
 
 def txrStr : TxR → String
   | .ok => "ok" | .err e => errStr e | .unknown => "?"
